@@ -112,6 +112,15 @@ theorem add_canon {canon : α → Dtor} {t : Table α Dtor} (hi : t.Inv)
       obtain ⟨hm, hn⟩ := lookup_some_mem hl
       rw [hb, h2 e hl, hc e hm, hn]
 
+/-- the generator starts in a state satisfying the invariant (`wrap_library` reserves slot 0) -/
+theorem winv_init (canon tmBody : α → Dtor) (noneName : α) (h : canon noneName = .nothing) :
+    WInv canon tmBody ⟨Table.init noneName .nothing, fun _ => 0⟩ := by
+  refine ⟨add_inv Table.inv_empty noneName Dtor.nothing, ?_, by intro t ht; exact absurd rfl ht⟩
+  intro e he
+  simp [Table.init, addCapsuleCode, Table.lookup, Table.empty] at he
+  subst he
+  exact h.symm
+
 /-- the request is consistent with the static meaning of names and typemaps -/
 structure FindIn.Consistent (canon tmBody : α → Dtor) (x : FindIn α) : Prop where
   body : (if x.cxxToC then Dtor.del x.ty else Dtor.free) = tmBody x.tm
@@ -433,6 +442,11 @@ theorem release_frees_exactly_once (hz : tbl[0]? = some .nothing) {s : St} (g : 
   have := run_mono (tbl := tbl) (step tbl s (.release h)) later _ hlt'
   have := g2.once (s.hs h).addr
   omega
+
+/-- non-vacuity (concrete instance): owned result, release, then more disciplined operations -/
+example : ((run [.nothing, .del 1] (step [.nothing, .del 1]
+      (run [.nothing, .del 1] St.init [.owned 0 (.cxx 1) 1, .method 0]) (.release 0))
+      [.release 0, .construct 0 1 1, .delete 0 1, .release 0]).heap 1).frees = 1 := by decide
 
 /-- the same for the explicit destructor wrapper `<Class>_dtor` -/
 theorem delete_frees_exactly_once (hz : tbl[0]? = some .nothing) {s : St} (g : Good tbl ht S s)
